@@ -157,6 +157,7 @@ func Flush() {
 
 // Main wraps testing.M so statistics are flushed at exit.
 func Main(m *testing.M) {
+	ApplyEnv()
 	code := m.Run()
 	Flush()
 	os.Exit(code)
